@@ -141,13 +141,17 @@ def input_bag(toks):
     return bag(''.join(t for _, t in toks))
 
 
-def explain_lost(lost, text):
-    """the tree records neither the enum keyword (`enum`, `enum class`, `enum struct`) nor `std::` before pair: a loss made
-    of whole copies of those words is no loss.  Returns 'ok', 'typedef-qualifiers' (recorded defect) or None."""
-    lost = Counter(lost)
-    words = [Counter('enum'), Counter('class'), Counter('struct'), Counter('std::')]
-    limits = [text.count('enum'), text.count('class'), text.count('struct'), text.count('std::')]
+COMMENT_RE = __import__('re').compile(r'/\*.*?\*/|//[^\n]*', __import__('re').S)
 
+
+def comment_chars(text):
+    """the characters of everything that looks like a comment: whether the parser skipped such a piece (filler) or
+    kept it (inside a default value, which is copied verbatim) depends on where it stands"""
+    return bag(''.join(COMMENT_RE.findall(text)))
+
+
+def _words_cover(rem, words, limits):
+    """can the multiset rem be written as copies of the given words (at most limits[i] of word i)?"""
     def search(rem, i):
         if not rem:
             return True
@@ -156,25 +160,42 @@ def explain_lost(lost, text):
         for k in range(limits[i] + 1):
             need = Counter({c: n * k for c, n in words[i].items()})
             if all(rem.get(c, 0) >= n for c, n in need.items()):
-                r2 = rem - need
-                if search(+r2, i + 1):
+                if search(+(rem - need), i + 1):
                     return True
             else:
                 break
         return False
-    if search(lost, 0):
-        return 'ok'
+    return search(+Counter(rem), 0)
+
+
+def explain(lost, invented, text):
+    """The tree records neither the enum keyword (`enum`, `enum class`, `enum struct`) nor `std::` before pair; comment
+    text is dropped where it is filler and kept where it is part of a default value.  Returns 'ok',
+    'typedef-qualifiers' (recorded defect: const / * / @ / & of a typedef'd type are dropped) or None."""
+    cc = comment_chars(text)
+    if +(Counter(invented) - cc):
+        return None
+    base_words = [Counter('enum'), Counter('class'), Counter('struct'), Counter('std::')]
+    base_limits = [text.count('enum'), text.count('class'), text.count('struct'), text.count('std::')]
+    lost = Counter(lost)
+    # characters credited to skipped comments: any sub-multiset of cc; try "as many as possible" and "none"
+    for credit in (cc, Counter()):
+        rem = +(lost - credit)
+        if _words_cover(rem, base_words, base_limits):
+            return 'ok'
+    import re as _re
+    sites = []
     if 'typedef' in text:
-        # qualifiers of a typedef's target type and of its template arguments are accepted and dropped (recorded defect)
-        q = Counter(lost)
-        for w, cnt in ((Counter('const'), text.count('const')), ):
-            for _ in range(cnt):
-                if all(q.get(c, 0) >= n for c, n in w.items()) and search(+(q - w), 0) is not None:
-                    q = +(q - w)
-        for ch in '*@&':
-            q.pop(ch, None)
-        if search(+q, 0):
-            return 'typedef-qualifiers'
+        sites.append('typedef-qualifiers')
+    if _re.search(r'=\s*(?:/\*.*?\*/|//[^\n]*\n|\s)*\{', text, _re.S):
+        sites.append('instantiation-qualifiers')
+    if sites:
+        for credit in (cc, Counter()):
+            rem = +(lost - credit)
+            for ch in '*@&':
+                rem.pop(ch, None)
+            if _words_cover(rem, base_words + [Counter('const')], base_limits + [text.count('const')]):
+                return sites[0]
     return None
 
 
@@ -273,6 +294,7 @@ def run(rep, tier, seed, replay=None, proof_ok=True):
     shown = 0
     rejected = []
     known_typedef = False
+    known_inst = False
     try:
         for (kind, toks, text), i in zip(cases, impl):
             rep.hit(common.sha(text)[:16], True)
@@ -288,12 +310,15 @@ def run(rep, tier, seed, replay=None, proof_ok=True):
                 want = input_bag(toks)
                 missing = want - got
                 extra = got - want
-                why = explain_lost(missing, text) if not extra else None
+                why = explain(missing, extra, text)
                 if why == 'ok':
                     rep.bump('accepted_fully_accounted')
                 elif why == 'typedef-qualifiers':
                     rep.bump('known:typedef-qualifiers')
                     known_typedef = True
+                elif why == 'instantiation-qualifiers':
+                    rep.bump('known:instantiation-qualifiers')
+                    known_inst = True
                 else:
                     bad = 'accepted, but the tree does not account for the input: characters lost %s, invented %s' % (
                         dict(missing), dict(extra))
@@ -353,6 +378,13 @@ def run(rep, tier, seed, replay=None, proof_ok=True):
                 if shown < 6:
                     shown += 1
                     rep.violation({'kind': 'counterexample', 'what': p + ' (default value before a parameter without one)', 'input': t})
+        wi = pc.impl_parse('template<T = {Foo<const A*>}> class C {};')
+        if wi[0] == 'ok' and 'A' in str(wi[1]) and '*' not in str(wi[1]):
+            known_inst = True
+        if known_inst:
+            rep.known('C07-instantiation-qualifiers-dropped: const and the pointer/reference markers written on the template arguments of an '
+                      'instantiation value are accepted and appear nowhere in the parse result (Template.TypenameAndInstantiations keeps '
+                      'inst.typename only) [witness: template<T = {Foo<const A*>}> class C {};]')
         rep.sample({'input': cases[0][2][:300], 'corruption': cases[0][0], 'verdict': impl[0][0]})
     finally:
         model.close()
